@@ -172,7 +172,31 @@ def count_range(body, starts, ends, markers, blocked_edges=()):
                 changed = True
     if not can & set(starts):
         return None
-    back = body.back_edges()
+    # back edges of the *region* (DFS from the starts, end blocks are sinks)
+    back = set()
+    color = {}
+    for st in starts:
+        if st not in region or color.get(st):
+            continue
+        stack = [(st, iter(body.succ[st] if st not in ends else []))]
+        color[st] = 1
+        while stack:
+            x, it = stack[-1]
+            adv = False
+            for y in it:
+                if (x, y) in blocked_edges or y not in region:
+                    continue
+                c = color.get(y, 0)
+                if c == 0:
+                    color[y] = 1
+                    stack.append((y, iter(body.succ[y] if y not in ends else [])))
+                    adv = True
+                    break
+                elif c == 1:
+                    back.add((x, y))
+            if not adv:
+                color[x] = 2
+                stack.pop()
     # cycle check: marker on a cycle within `can`
     inf = False
     for m in markers & can:
